@@ -173,7 +173,8 @@ impl<'a> ConstraintValidator<'a> {
         }
 
         for position in table_btree.iter_forward()? {
-            if let Ok(pos) = position {
+            let pos = position?;
+            {
                 if let Some(row) = table_btree.get_row_at(pos, self.schema, &snapshot)? {
                     let Some(DataType::BigUInt(UInt64(value))) = row.first() else {
                         return Err(ValidationError::Btree(BtreeError::Other(
